@@ -10,3 +10,4 @@ import GPy.C06.Props
 import GPy.C01.Props
 import GPy.C04.Props
 import GPy.C12.Props
+import GPy.C13.Props
